@@ -54,7 +54,26 @@ def base_cfg(name, sc, **over):
     return cfg
 
 
-def finish(rec, name, sc, cfg, returned=None, final=None, error=None):
+def buffer_rows(buf):
+    """Decoded contents of a (uniform / LAP / PER) ring buffer: one record per valid slot."""
+    from .probes import _act
+
+    rows = []
+    b = buf.buffer
+    if not all(k in b for k in ("observation", "action", "reward", "next_observation", "termination")):
+        return None
+    for i in range(int(buf.current_len)):
+        rows.append({"obs": decode_obs(b["observation"][i]), "act": str(_act(b["action"][i])), "r4": int(round(float(b["reward"][i]) * 4)),
+                     "next": decode_obs(b["next_observation"][i]), "term": bool(b["termination"][i])})
+    return rows
+
+
+def finish(rec, name, sc, cfg, returned=None, final=None, error=None, buffer=None):
+    if buffer is not None and error is None:
+        rows = buffer_rows(buffer)
+        if rows is not None:
+            # what the routine keeps at the end must be the most recent kept transitions (C01: "each transition it keeps")
+            rec.emit("final_buffer", rows=rows, n=int(buffer.buffer_size))
     if returned is not None:
         rec.emit("ret", n=int(returned))
     tr = {"id": f"{name}:{sc.get('label', '')}", "cfg": cfg, "events": rec.events, "final": final or {}, "scenario": sc}
@@ -158,7 +177,7 @@ def _dqn_common(name, sc, mod, train, extra_kwargs, uses_target, per=False, has_
                    epsilon4=-1 if eps is None else int(eps * 4), eps_switch=sw if hasattr(mod, "linear_schedule") else -1, rules=_rules, pairs=[["q_target", "q"]] if uses_target else [],
                    hard_pairs=[["q_target", "q"]] if uses_target else [])
     ret = None if res is None else getattr(res, "global_step", None)
-    return finish(rec, name, sc, cfg, returned=ret, final=final_digests(q=q_net, q_target=tgt), error=err)
+    return finish(rec, name, sc, cfg, returned=ret, final=final_digests(q=q_net, q_target=tgt), error=err, buffer=buf)
 
 
 @routine("dqn", warmlearn_doc=-1)
@@ -262,7 +281,7 @@ def _ddpg_like(name, sc, train, double_q, extra, lap=False):
         ret = getattr(res, "global_step", None)
         if ret is None:
             ret = getattr(res, "steps_trained", None)
-    return finish(rec, name, sc, cfg, returned=ret, final=final_digests(policy=policy, q=q, policy_target=ptgt, q_target=qtgt), error=err)
+    return finish(rec, name, sc, cfg, returned=ret, final=final_digests(policy=policy, q=q, policy_target=ptgt, q_target=qtgt), error=err, buffer=buf)
 
 
 @routine("ddpg")
@@ -296,7 +315,8 @@ def scenarios(tier, seed, routine=None):
     base = dict(seed=seed % 1000 + 1, batch=2, cap=7)
     scs = [
         dict(base, label="A", script=[(3, "term"), (1, "trunc"), (2, "trunc"), (4, "term"), (1, "term")], budget=26, start=0, eplimit=0, warm=6),
-        dict(base, label="B", script=[(2, "trunc"), (3, "term"), (1, "term")], budget=17, start=3, eplimit=0, warm=5),
+        # scenario B runs with the boundary seed 0 (a falsy seed must still be a seed)
+        dict(base, label="B", script=[(2, "trunc"), (3, "term"), (1, "term")], budget=17, start=3, eplimit=0, warm=5, seed=0),
         dict(base, label="C", script=[(4, "term"), (2, "trunc"), (3, "term")], budget=30, start=0, eplimit=4, warm=4),
     ]
     if routine in VALUE_BASED:
